@@ -22,6 +22,33 @@ SHRINK = False
 IDS = [None, b"A", b"B" * 16, b"C" * 255]
 
 
+def abandon_cases(n0):
+    """a send is abandoned (future dropped) while the target's connection is not accepting data; the peer is still
+    connected, so the next message addressed to it must be delivered — after the abandoned one, whole"""
+    out = []
+    n = n0
+    for credit in (0, 1, 5, 9):
+        for k in (1, 2):
+            for big in (False, True):
+                sc = wg.Script()
+                sc.sock(1, "ROUTER")
+                sc.attach(1, 1, "DEALER", b"slow")
+                sc.attach(1, 2, "DEALER", b"other")
+                sc.add("wire 1", "wire 2", f"credit 1 {credit}")
+                f = sc.fut()
+                first = [b"slow", (b"F" * 100 if big else b"first")]
+                sc.add(f"send {f} 1 {wg.mtok(first)}")
+                sc.add(*[f"poll {f}"] * k)
+                sc.add(f"drop {f}", "wire 1", "credit 1 inf")
+                g = sc.fut()
+                sc.add(f"send {g} 1 {wg.mtok([b'slow', b'second'])}", f"poll {g}", "wire 1", "wire 2")
+                c = sc.case(f"abandoned-send#{n}", ["abandoned-send"])
+                c.expect = ("abandon", b"slow", credit, k)
+                out.append(c)
+                n += 1
+    return out
+
+
 def ident_of(spec, k):
     """identity the model/harness will show for the k-th auto peer or the announced one"""
     return spec
@@ -29,6 +56,11 @@ def ident_of(spec, k):
 
 def cases(tier, rng):
     out = gen.corpus(ID)
+    # safety net: seeded random schedules of these socket types over scripted pipes (partial reads, back-pressure,
+    # errors, futures polled once or twice and then ABANDONED, sockets dropped) — every line predicted by the World model
+    for i in range(150 if tier == "quick" else 3000):
+        out.append(wg.random_case(rng, f"random-world#{i}", ["ROUTER"], tags=("random-world",)))
+    out += abandon_cases(100000)
     n = 0
     # routing
     for npeers in (1, 2, 3):
@@ -223,6 +255,18 @@ def oracle(case, lines):
         if not got or not got[-1].startswith(f"ready ok M[{wg.show_frames([case.expect[1]])},"):
             return f"message of the reconnected client not labelled with its identity: {got[-1][:80] if got else None}"
         return None
+    if kind == "abandon":
+        _, ident, credit, k = case.expect
+        polls = [(op, l) for op, l in res if op.startswith("poll")]
+        last = polls[-1][1]
+        if last != "ready ok":
+            return (f"after a send to {ident!r} was abandoned while the connection was not accepting data, the next send to the "
+                    f"same — still connected — peer failed: {last}")
+        wire = "".join(l.split(" ", 1)[1] for op, l in res if op == "wire 1" and l != "wire .")
+        tail = wg.show_wire([[b"second"]])
+        if not wire.endswith(tail):
+            return f"the message sent after the abandoned one did not reach the peer whole: wire ends …{wire[-60:]}"
+        return None
     if kind == "route":
         return check_sends(res, case.expect[1], case.expect[2])
     if kind == "label":
@@ -232,7 +276,7 @@ def oracle(case, lines):
 
 def nontrivial(case, lines):
     t = " ".join(lines)
-    return "ready ok" in t and ("ready err" in t or case.expect[0] == "label")
+    return "ready ok" in t and ("ready err" in t or bool(case.expect and case.expect[0] == "label"))
 
 
 def signature(case, ml, il, o):
